@@ -104,6 +104,16 @@ Definition openstack_pkt (c : cfg) (p : packet) : bool :=
        end)).
 Definition pre_policy_exempt (c : cfg) (p : packet) : bool := nd_pkt c p || openstack_pkt c p.
 
+(* kube-proxy IPVS mode: traffic that IPVS forwards (to a service address, or to a node port of this host) also
+   traverses INPUT; cali-INPUT marks it and hands it back, its policy is applied from OUTPUT.  The workload-to-host
+   clause is about traffic to the host itself. *)
+Definition ipvs_forwarded (c : cfg) (e : env) (p : packet) : bool :=
+  c_ipvs c && negb (ct_est p) &&
+  (negb (in_set e SET_THIS_HOST (pk_dst p))
+   || ((N.eqb (pk_proto p) 6 || N.eqb (pk_proto p) 17) && in_ranges (c_nodeports c) (pk_dport p))).
+(* host-originated packets carry no endpoint mark (it is only set on INPUT for IPVS-forwarded packets) *)
+Definition no_ep_mark (c : cfg) (p : packet) : bool := negb (c_ipvs c) || N.eqb (N.land (pk_mark p) (c_endpoint c)) 0.
+
 (* ------------------------------------------------------------------ one correspondence case *)
 Record probe := { pr_pkt : packet; pr_other : list N }.     (* ids of the oracle matches that hold for this packet *)
 Record case := {
@@ -139,7 +149,7 @@ Section Clauses.
          && not_dropped (hook filter e CH_INPUT p)
     else true.
   Definition fs_out_ok (p : packet) : bool :=
-    if fs_out_pkt c p && negb (wl_iface c (pk_out p)) && negb (ct_invalid p)
+    if fs_out_pkt c p && negb (wl_iface c (pk_out p)) && negb (ct_invalid p) && no_ep_mark c p
     then not_dropped (hook raw e CH_OUTPUT p) && not_dropped (hook filter e CH_OUTPUT p)
          && not_dropped (hook mangle e CH_POSTROUTING p)
     else true.
@@ -179,6 +189,7 @@ Section Clauses.
     match lookup_wl wl (pk_in p) with
     | Some ch =>
         if wl_iface c (pk_in p) && negb (infra_pkt c e p) && negb (negb strict_pre && pre_policy_exempt c p)
+           && negb (ipvs_forwarded c e p)
         then verdict_eqb (hook filter e CH_INPUT p) (wl_host_expected ch p)
         else true
     | None => true
@@ -237,6 +248,7 @@ Definition shapes_ok (k : case) : bool :=
   && disp_ok (k_raw k) (raw_hep_ok CH_FS_IN) CH_FROM_HEP && disp_ok (k_raw k) (raw_hep_ok CH_FS_OUT) CH_TO_HEP
   && hep_disp_ok (k_mangle k) CH_FROM_HEP CH_FS_IN && hep_disp_ok (k_mangle k) CH_TO_HEP CH_FS_OUT
   && match lookup (k_mangle k) CH_EGRESS_DSCP with Some b => noop_chain b | None => false end
+  && (negb (c_ipvs (k_cfg k)) || setmark_ok (k_filter k) (c_prefixes (k_cfg k)))
   && hep_disp_ok (k_filter k) CH_FROM_HEP CH_FS_IN && hep_disp_ok (k_filter k) CH_TO_HEP CH_FS_OUT
   && match lookup (k_filter k) CH_FROM_WL with
      | Some b => wl_root_ok (k_filter k) b
